@@ -2,6 +2,7 @@
 C04 - aggregations group, label and reduce exactly as the reference engine.
 -/
 import PromqlVerif.Proofs.Agg
+import PromqlVerif.Proofs.DistAgg
 import PromqlVerif.Proofs.HeapPerm
 import PromqlVerif.Proofs.AccProof
 import PromqlVerif.Proofs.HeapOrder
@@ -119,6 +120,76 @@ theorem aggregation_over_fragment (c : Ctx V) (hq : c.q.noDupCheck = true) (op :
     rw [eval]
     simp only [hval, hspec, bind, Except.bind, pure, Except.pure, Value.asVec, dedupCheck, hq, Bool.not_true, Bool.false_and,
       Bool.false_eq_true, if_false]
+
+/-- `by ()` puts every sample into one group -/
+theorem dedup_const {α : Type} [BEq α] [LawfulBEq α] (a : α) (l : List α) (h : ∀ x ∈ l, x = a) (hne : l ≠ []) :
+    dedup l = [a] := by
+  induction l with
+  | nil => exact absurd rfl hne
+  | cons x xs ih =>
+    have hx : x = a := h x List.mem_cons_self
+    subst hx
+    simp only [dedup]
+    cases xs with
+    | nil => simp [dedup]
+    | cons y ys =>
+      rw [ih (fun z hz => h z (List.mem_cons_of_mem _ hz)) (by simp)]
+      simp
+
+/-- **the vectorized aggregation (no grouping: `sum(x)`, `max(x)`, ... over all series) over any
+expression of the C01 fragment is the reference aggregation** - exactly, not only up to order:
+one label-less output whenever the step has samples, with the reduction of all of them in sample
+order; nothing otherwise. (`hR` as in `aggregation_over_fragment`.) -/
+theorem vectorized_aggregation_over_fragment (c : Ctx V) (hq : c.q.noDupCheck = true) (op : String)
+    (e : Expr V) (he : Frag false e) (hvecop : vectorizedAggs.contains op = true)
+    (hR : ∀ vals : List V, vals ≠ [] → engReduce op nan vals = aggReduce op nan vals) :
+    ∃ o, engOp c (.agg op false [] e) = .ok o ∧
+      ∀ t, ∃ ys, o.step t = .ok ys ∧ eval c t (.agg op false [] e) = .ok (.vec (denote o.series ys)) := by
+  obtain ⟨child, hchild, _, hstep⟩ := frag_inv c hq false e he
+  have hacc : engineAccumulators.contains op = true := by
+    simp only [vectorizedAggs, List.contains_eq_mem, List.mem_cons, List.mem_nil_iff, or_false, decide_eq_true_eq] at hvecop
+    rcases hvecop with rfl | rfl | rfl | rfl | rfl | rfl <;> decide
+  have hk : (op == "topk" || op == "bottomk") = false := by
+    simp only [vectorizedAggs, List.contains_eq_mem, List.mem_cons, List.mem_nil_iff, or_false, decide_eq_true_eq] at hvecop
+    rcases hvecop with rfl | rfl | rfl | rfl | rfl | rfl <;> decide
+  refine ⟨engAggregate op false [] none child, ?_, fun t => ?_⟩
+  · rw [engOp]
+    simp only [hchild, bind, Except.bind, pure, Except.pure, hk, hacc, Bool.false_eq_true, if_false, Bool.not_true]
+  · obtain ⟨xs, hxs, hids, hval⟩ := hstep t
+    simp only [Bool.false_eq_true, if_false] at hval
+    have hden : denote child.series xs = xs.map fun x => (lab child.series x, x.2) :=
+      denote_eq_map_of_valid child.series xs hids
+    unfold engAggregate
+    simp only [Bool.not_false, List.isEmpty_nil, Bool.true_and, hvecop, if_true]
+    refine ⟨if xs.isEmpty then [] else [(0, engReduce op nan (xs.map (·.2)))], by
+      simp only [hxs, bind, Except.bind, pure, Except.pure], ?_⟩
+    rw [eval]
+    simp only [hval, bind, Except.bind, pure, Except.pure, Value.asVec, dedupCheck, hq, Bool.not_true, Bool.false_and,
+      Bool.false_eq_true, if_false]
+    rw [aggregate_eq_aggR op false [] nan _ hk]
+    cases hxe : xs with
+    | nil => simp [aggR, denote, dedup]
+    | cons x rest =>
+      have hkey : ∀ ls : Labels, groupKey false [] ls = [] := by
+        intro ls; simp [groupKey, Labels.keep]
+      have hne : xs ≠ [] := by rw [hxe]; simp
+      rw [← hxe, hden]
+      unfold aggR
+      rw [dedup_const ([] : Labels) _ (by
+        intro k hk'
+        simp only [List.map_map, List.mem_map, Function.comp_def] at hk'
+        obtain ⟨y, _, rfl⟩ := hk'
+        exact hkey _) (by simp [hne])]
+      have hfilter : ((xs.map fun x => (lab child.series x, x.2)).filter fun x => groupKey false [] x.1 == ([] : Labels))
+          = xs.map fun x => (lab child.series x, x.2) := by
+        rw [List.filter_eq_self]
+        intro a _
+        simp [hkey]
+      simp only [List.map_cons, List.map_nil, hfilter, List.map_map, Function.comp_def]
+      have hxsne : xs.isEmpty = false := by rw [hxe]; rfl
+      simp only [hxsne, Bool.false_eq_true, if_false, denote, List.filterMap_cons, List.filterMap_nil,
+        List.getElem?_cons_zero, Option.map_some]
+      rw [hR _ (by simp [hne])]
 
 /-- the heap selection of topk/bottomk only ever returns members of the group -/
 example : kSelect true 2 [("a", (1 : Int)), ("b", 5), ("c", 3), ("d", 4)] = [("d", 4), ("b", 5)] := by decide
